@@ -476,11 +476,11 @@ func (r *renderer) value(t *Term, T types.Type, depth int) (out string) {
 		if eb, ok := u.Elem().Underlying().(*types.Basic); ok && eb.Info()&types.IsInteger != 0 {
 			lim = maxReplayBytes
 		}
-		if ln.Sign() < 0 || ln.Cmp(big.NewInt(lim)) > 0 {
-			r.note("slice of length %s in the model: too large to materialise, left nil", ln)
-			return "(" + tl + ")(nil)"
-		}
 		etl, _ := r.typeLit(u.Elem())
+		if ln.Sign() < 0 || ln.Cmp(big.NewInt(lim)) > 0 {
+			r.note("slice of length %s in the model: too large to materialise, replaced by an empty non-nil slice", ln)
+			return fmt.Sprintf("%s(make([]%s, 0))", tl, etl)
+		}
 		var parts []string
 		arr := Select(r.pre.amem(u.Elem()), Acc("sbase", t))
 		for i := int64(0); i < ln.Int64(); i++ {
@@ -520,21 +520,29 @@ func (r *renderer) value(t *Term, T types.Type, depth int) (out string) {
 		if !ok || tag.Sign() == 0 {
 			return "(" + tl + ")(nil)"
 		}
-		if !tag.IsInt64() || tag.Int64() < 0 || int(tag.Int64()) >= len(prog.TagType) {
-			r.note("interface value with a dynamic type outside the program's type table: left nil")
-			return "(" + tl + ")(nil)"
+		var dyn types.Type
+		if tag.IsInt64() && tag.Int64() > 0 && int(tag.Int64()) < len(prog.TagType) {
+			dyn = prog.TagType[tag.Int64()]
 		}
-		dyn := prog.TagType[tag.Int64()]
-		if dyn == nil {
-			return "(" + tl + ")(nil)"
+		if dyn == nil || !types.AssignableTo(dyn, T) {
+			// the model leaves the dynamic type open (nothing on the path depends on it): take the
+			// first of the package's own types that implements the interface
+			dyn = nil
+			for _, it := range append(closedImpls(T), prog.IfaceImpls...) {
+				if _, ok := r.typeLit(it); ok && types.AssignableTo(it, T) {
+					dyn = it
+					break
+				}
+			}
+			if dyn == nil {
+				r.note("non-nil interface %s whose dynamic type the model leaves open and no constructible implementation: left nil", types.TypeString(T, nil))
+				return "(" + tl + ")(nil)"
+			}
+			r.note("non-nil interface %s whose dynamic type the model leaves open: %s chosen", types.TypeString(T, nil), types.TypeString(dyn, nil))
 		}
 		dtl, ok2 := r.typeLit(dyn)
 		if !ok2 {
 			r.note("interface value of dynamic type %s cannot be constructed from the package: left nil", dyn)
-			return "(" + tl + ")(nil)"
-		}
-		if !types.AssignableTo(dyn, T) {
-			r.note("model gives interface %s the dynamic type %s, which does not implement it: left nil", T, dyn)
 			return "(" + tl + ")(nil)"
 		}
 		switch dyn.Underlying().(type) {
@@ -620,6 +628,7 @@ type ctrans struct {
 	results map[string]string
 	why     string
 	inOld   bool
+	inRequires bool
 }
 
 func (c *ctrans) fail(f string, a ...interface{}) string {
@@ -718,6 +727,13 @@ func (c *ctrans) tr(e *CExpr) string {
 			if strings.HasPrefix(e.Name, "!") {
 				neg = "!"
 			}
+			if isBigExpr(a) || isBigExpr(b) {
+				op := "=="
+				if neg != "" {
+					op = "!="
+				}
+				return "(zzCmp(" + c.trBig(a) + ", " + c.trBig(b) + ") " + op + " 0)"
+			}
 			if isLiteralish(a) || isLiteralish(b) {
 				op := "=="
 				if neg != "" {
@@ -728,6 +744,12 @@ func (c *ctrans) tr(e *CExpr) string {
 			return "(" + neg + "zzEq(" + c.tr(a) + ", " + c.tr(b) + "))"
 		}
 		if goBinOps[e.Name] {
+			switch e.Name {
+			case "<", "<=", ">", ">=":
+				if isBigExpr(a) || isBigExpr(b) {
+					return "(zzCmp(" + c.trBig(a) + ", " + c.trBig(b) + ") " + e.Name + " 0)"
+				}
+			}
 			return "(" + c.tr(a) + " " + e.Name + " " + c.tr(b) + ")"
 		}
 		return c.fail("operator %s", e.Name)
@@ -763,11 +785,14 @@ func (c *ctrans) tr(e *CExpr) string {
 			c.subst = saved
 			return out
 		}
-		if _, ok := specs.Ghosts[e.Name]; ok {
+		if _, ok := specs.Ghosts[e.Name]; ok && !boundGhost[e.Name] {
 			return c.fail("ghost function %s", e.Name)
 		}
-		if _, ok := specs.GhostFields[e.Name]; ok {
+		if _, ok := specs.GhostFields[e.Name]; ok && e.Name != "val" {
 			return c.fail("ghost state %s", e.Name)
+		}
+		if isBigExpr(e) {
+			return c.fail("big-number term outside a comparison")
 		}
 		arg := func(i int) string { return c.tr(e.Args[i]) }
 		switch e.Name {
@@ -795,6 +820,19 @@ func (c *ctrans) tr(e *CExpr) string {
 			return fmt.Sprintf("interface{}(%s).(%s)", arg(0), arg(1))
 		case "bytes":
 			return "string(" + arg(0) + ")"
+		case "countsep":
+			return "uint64(strings.Count(" + arg(0) + ", string([]byte{byte(" + arg(1) + ")})))"
+		case "bs_sub":
+			return "(" + arg(0) + ")[int(" + arg(1) + "):int(" + arg(1) + ")+int(" + arg(2) + ")]"
+		case "bs_len":
+			return "uint64(len(" + arg(0) + "))"
+		case "payloadNonNil":
+			return "(!zzNilPayload(" + arg(0) + "))"
+		case "nonglobal":
+			if c.inRequires {
+				return "true" // materialised inputs are freshly allocated
+			}
+			return c.fail("builtin nonglobal")
 		case "be16", "be32", "be64":
 			return fmt.Sprintf("zzBE(%s, int(%s), %s)", arg(0), arg(1), strings.TrimPrefix(e.Name, "be"))
 		case "ite":
@@ -813,6 +851,64 @@ func (c *ctrans) tr(e *CExpr) string {
 		return c.fail("builtin %s", e.Name)
 	}
 	return c.fail("expression %s", e)
+}
+
+var boundGhost = map[string]bool{"countsep": true, "bs_sub": true, "bs_len": true, "nat": true, "powmod": true, "invmod": true}
+
+// isBigExpr: the expression denotes a mathematical integer built from *big.Int values.
+func isBigExpr(e *CExpr) bool {
+	if e == nil {
+		return false
+	}
+	switch e.Op {
+	case "call":
+		switch e.Name {
+		case "val", "nat", "powmod", "invmod":
+			return true
+		}
+	case "bin":
+		switch e.Name {
+		case "+", "-", "*", "%":
+			return isBigExpr(e.Args[0]) || isBigExpr(e.Args[1])
+		}
+	}
+	return false
+}
+
+// trBig translates a mathematical-integer expression to a *big.Int valued Go expression.
+func (c *ctrans) trBig(e *CExpr) string {
+	if s, ok := c.subst[e.Name]; ok && e.Op == "id" {
+		saved := c.subst
+		c.subst = nil
+		out := c.trBig(s)
+		c.subst = saved
+		return out
+	}
+	switch e.Op {
+	case "call":
+		switch e.Name {
+		case "val":
+			return "zzVal(" + c.tr(e.Args[0]) + ")"
+		case "nat":
+			return "new(big.Int).SetBytes([]byte(" + c.tr(e.Args[0]) + "))"
+		case "powmod":
+			return "new(big.Int).Exp(" + c.trBig(e.Args[0]) + ", " + c.trBig(e.Args[1]) + ", " + c.trBig(e.Args[2]) + ")"
+		case "invmod":
+			return "new(big.Int).ModInverse(" + c.trBig(e.Args[0]) + ", " + c.trBig(e.Args[1]) + ")"
+		}
+	case "bin":
+		switch e.Name {
+		case "+":
+			return "new(big.Int).Add(" + c.trBig(e.Args[0]) + ", " + c.trBig(e.Args[1]) + ")"
+		case "-":
+			return "new(big.Int).Sub(" + c.trBig(e.Args[0]) + ", " + c.trBig(e.Args[1]) + ")"
+		case "*":
+			return "new(big.Int).Mul(" + c.trBig(e.Args[0]) + ", " + c.trBig(e.Args[1]) + ")"
+		case "%":
+			return "new(big.Int).Mod(" + c.trBig(e.Args[0]) + ", " + c.trBig(e.Args[1]) + ")"
+		}
+	}
+	return "zzVal(" + c.tr(e) + ")"
 }
 
 // expand applies the current macro substitution to an argument expression.
@@ -883,6 +979,31 @@ func zzEqV(a, b reflect.Value) bool {
 		return a.Bool() == b.Bool()
 	case reflect.Float32, reflect.Float64:
 		return a.Float() == b.Float()
+	}
+	return false
+}
+func zzVal(x interface{}) *big.Int {
+	if b, ok := x.(*big.Int); ok {
+		if b == nil {
+			panic("val of a nil *big.Int")
+		}
+		return b
+	}
+	v := reflect.ValueOf(x)
+	if zzIsInt(v.Kind()) {
+		return zzBigOf(v)
+	}
+	panic("zzVal: unsupported operand")
+}
+func zzCmp(a, b *big.Int) int { return a.Cmp(b) }
+func zzNilPayload(x interface{}) bool {
+	if x == nil {
+		return true
+	}
+	v := reflect.ValueOf(x)
+	switch v.Kind() {
+	case reflect.Ptr, reflect.Map, reflect.Slice, reflect.Func, reflect.Chan, reflect.Interface:
+		return v.IsNil()
 	}
 	return false
 }
@@ -1036,7 +1157,7 @@ func tryReplay(r *FuncResult, o *Obl) string {
 	var reqCode []string
 	if sp != nil {
 		for _, rq := range sp.Requires {
-			c2 := &ctrans{fn: fn, sp: sp, results: map[string]string{}}
+			c2 := &ctrans{fn: fn, sp: sp, results: map[string]string{}, inRequires: true}
 			code := c2.tr(rq.E)
 			if c2.why != "" || len(c2.olds) > 0 {
 				reqSrc = append(reqSrc, rq.Src+"   [not compiled: "+c2.why+"]")
@@ -1131,7 +1252,10 @@ func tryReplay(r *FuncResult, o *Obl) string {
 		imports[p] = n
 	}
 	var ips []string
-	for p := range imports {
+	for p, n := range imports {
+		if n != "testing" && !strings.Contains(body2.String()+replayHelpers, n+".") {
+			continue
+		}
 		ips = append(ips, p)
 	}
 	sort.Strings(ips)
@@ -1155,7 +1279,7 @@ import (
 %s
 // Replay of the solver's counterexample for obligation
 //   %s
-func TestZZReplay(t *testing.T) {
+func TestZZReplay(zzt *testing.T) {
 	defer func() {
 		if r := recover(); r != nil {
 			fmt.Printf("ZZREPLAY panic: %%v\n", r)
@@ -1239,6 +1363,7 @@ func TestZZReplay(t *testing.T) {
 		rep.WriteString("replay: the materialised input does not satisfy the function's precondition (the model's heap could not be rebuilt faithfully); no-failing-input-found\n")
 	case safetyKinds[kind] && panicked && posStr != "" && strings.Contains(outS, posStr+" "):
 		o.Replayed = true
+		o.ReplayFull = reqUnknown == 0
 		fmt.Fprintf(&rep, "replay: REPRODUCED - the real code panics at %s on the counterexample (%d of %d preconditions evaluated, all true)\n", strings.TrimPrefix(posStr, "/"), len(reqCode)-reqUnknown, len(reqCode))
 	case safetyKinds[kind] && panicked:
 		rep.WriteString("replay: the call panicked, but not at the position of the obligation (" + strings.TrimPrefix(posStr, "/") + "): not counted; no-failing-input-found\n")
@@ -1246,6 +1371,7 @@ func TestZZReplay(t *testing.T) {
 		rep.WriteString("replay: not reproduced (the call returned normally); no-failing-input-found\n")
 	case clause != nil && clauseWhy == "" && returned && strings.Contains(outS, "ZZREPLAY clause = false"):
 		o.Replayed = true
+		o.ReplayFull = reqUnknown == 0
 		fmt.Fprintf(&rep, "replay: REPRODUCED - on the counterexample the real code returns and the violated clause evaluates to false (%d of %d preconditions evaluated, all true)\n", len(reqCode)-reqUnknown, len(reqCode))
 	case clause != nil && clauseWhy == "" && returned && strings.Contains(outS, "ZZREPLAY clause = true"):
 		rep.WriteString("replay: not reproduced (the clause holds on the real execution of the materialised input); no-failing-input-found\n")
